@@ -36,6 +36,9 @@ type TableCheck struct {
 	// every key that is also the name of an exported string constant of this package (e.g. "time")
 	// must map to that constant's value (a name table that shadows library constants)
 	MapValuesMatchPkgConsts string `json:"map_values_match_pkg_consts"`
+	// the variable is initialised by regexp.MustCompile(<constant>): the pattern must match whole
+	// strings only (anchored with ^ ... $ after optional flags)
+	RegexpWholeMatch bool `json:"regexp_whole_match"`
 }
 
 // literalOf finds the composite literal initialising a package-level variable.
@@ -184,6 +187,37 @@ func (e *Engine) tableEntries(pkgPath, varName string) (map[int64]string, bool) 
 	return nil, false
 }
 
+// initCallArg returns the constant string argument of the call that initialises a package variable.
+func (e *Engine) initCallArg(pkgPath, varName string) (string, bool) {
+	for _, p := range e.loaded {
+		if p.PkgPath != pkgPath {
+			continue
+		}
+		for _, f := range p.Syntax {
+			for _, d := range f.Decls {
+				gd, ok := d.(*ast.GenDecl)
+				if !ok {
+					continue
+				}
+				for _, sp := range gd.Specs {
+					vs, ok := sp.(*ast.ValueSpec)
+					if !ok {
+						continue
+					}
+					for i, n := range vs.Names {
+						if n.Name == varName && i < len(vs.Values) {
+							if call, ok := vs.Values[i].(*ast.CallExpr); ok && len(call.Args) >= 1 {
+								return constString(p, call.Args[0])
+							}
+						}
+					}
+				}
+			}
+		}
+	}
+	return "", false
+}
+
 func (e *Engine) checkTable(tc TableCheck) {
 	fx := &FuncExec{eng: e, name: "table:" + tc.Pkg + "." + tc.Var}
 	st := &State{fx: fx, declSet: map[string]bool{}, pcSet: map[string]bool{}}
@@ -192,6 +226,25 @@ func (e *Engine) checkTable(tc TableCheck) {
 			return "true"
 		}
 		return "false"
+	}
+	if tc.RegexpWholeMatch {
+		pat, ok := e.initCallArg(tc.Pkg, tc.Var)
+		if !ok {
+			e.unsup[fx.name] = append(e.unsup[fx.name], "initialiser is not a call with a constant pattern")
+			return
+		}
+		e.funcsDone = append(e.funcsDone, fx.name)
+		body := pat
+		for strings.HasPrefix(body, "(?") { // leading flag group such as (?i)
+			if i := strings.Index(body, ")"); i > 0 && !strings.Contains(body[:i], ":") {
+				body = body[i+1:]
+			} else {
+				break
+			}
+		}
+		anchored := strings.HasPrefix(body, "^") && strings.HasSuffix(body, "$") && !strings.HasSuffix(body, "\\$") && !strings.Contains(body, "|")
+		e.oblige(fx, st, "table", "whole-match", tf(anchored), fmt.Sprintf("pattern %q of %s must be anchored at both ends (it decides whether a whole token is acceptable)", pat, tc.Var), 0)
+		return
 	}
 	if tc.Rows != nil {
 		rows, ok := e.rowsOf(tc.Pkg, tc.Var)
